@@ -507,6 +507,21 @@ func init() {
 			for _, src := range c05Regex() {
 				kC05.Do(c, c05Case{Src: src, Alias: 0})
 			}
+			// containers with many members in error messages, previews and texts: which members show must not depend on the
+			// order a Go map is walked in (the reruns of a case have to agree to the byte)
+			for _, nkeys := range []int{3, 9, 17, 40, 300} {
+				big := map[string]any{}
+				arr := []any{}
+				for i := 0; i < nkeys; i++ {
+					big[fmt.Sprintf("k%03d", i)] = i
+					arr = append(arr, map[string]any{fmt.Sprintf("m%03d", nkeys-i): i, "z": nil})
+				}
+				for _, src := range c05BigPrograms {
+					for _, in := range []any{big, map[string]any{"o": big, "a": arr}, []any{big, big}} {
+						kC05.Do(c, c05Case{Src: src, Alias: -1, Input: &run.TV{V: in}})
+					}
+				}
+			}
 			for _, src := range sweepPrograms(r, c.N(4, 40)) {
 				kC05.Do(c, c05Case{Src: src, Alias: r.IntN(10)})
 				kC05.Do(c, c05Case{Src: src, Alias: r.IntN(10)})
@@ -540,3 +555,9 @@ func init() {
 }
 
 var _ = bytes.NewReader
+
+var c05BigPrograms = []string{"try .[0] catch .", "try (. + 1) catch .", "try (.[] | .[0]?, (.o? | .[0])) catch .", "try error catch tostring", "try (. as [$a] | $a) catch .", "try ({} | .[$__loc__]?, (. | keys | .[\"a\"])) catch .", "try implode catch .", "try (. - 1) catch .",
+	"try ltrimstr(1) catch .", "try (.o // . | test(\"a\")) catch .", "try (to_entries | .[0].key | error) catch .", "try error(.) catch (keys | length)", "[.[]?] | try (.[0] | tonumber) catch .", "try (.o? // . | has(0)) catch .", "try tojson catch .", "tojson | .[0:60]", "tostring | length",
+	"[paths] | length", "keys | .[0:3]", "to_entries | .[0:2]", "[.[]?] | .[0:2] | tojson | .[0:80]", "@json | .[0:50]", "@text | .[-50:]", "try @csv catch .", "try @sh catch .", "try (.o? // . | @base64d) catch .", "try (. | splits(\"a\")) catch .", "try join(\",\") catch .",
+	"try (.o // . | min_by(.x)) catch .", "try flatten(-1) catch .", "try (.o // . | ascii_downcase) catch .", "try (.[\"a\"] | .[0] | .[\"k\"]) catch .", "try (.o // . | . as {k000: [$x]} | $x) catch .", "(.o // .) as $b | try ($b | .k001 | error({b: $b})) catch (.b | keys | length)", "try setpath([0]; 1) catch .", "try delpaths([[0]]) catch .",
+	"try getpath([0]) catch .", "try (.o // . | to_entries | from_entries | .[0]) catch .", "try fromjson catch .", "try (tojson | fromjson | .[0]) catch .", "try (.[] |= error) catch .", "try input catch .", "try ($ENV | .[0]) catch .", "try ([.] | implode) catch ."}
